@@ -40,6 +40,11 @@ def make_jobs(tier, seed, scale):
             jobs.append(("asan", ["--arch", arch, "--mode", "boundary"]))
             for sh in range(2):
                 jobs.append(("asan", ["--arch", arch, "--mode", "random", "--count", str(max(1, int(20000 * scale))), "--seed", sd(), "--shard", str(sh)]))
+    # Compiler-derived frames: functions with several call sites of different stack-argument sizes (drv_framecc)
+    ncc, ccnt = (2, 1500) if tier == "quick" else (8, 12000)
+    for arch in ("x64", "x86", "a64"):
+        for _ in range(ncc):
+            jobs.append(("cc", ["--arch", arch, "--seed", sd(), "--count", str(max(1, int(ccnt * scale)))]))
     return jobs
 
 
@@ -66,7 +71,8 @@ def judge_a64(records):
 def run(tier, args):
     chk = common.Check("C07", tier)
     exe = {"plain": build.build_driver("drv_frame", "plain", **PLAIN_FLAGS),
-           "asan": build.build_driver("drv_frame", "asan", extra_cflags=["-DVF_NOEXEC"])}
+           "asan": build.build_driver("drv_frame", "asan", extra_cflags=["-DVF_NOEXEC"]),
+           "cc": build.build_driver("drv_framecc", "asan")}
     if args.replay:
         rp = json.load(open(args.replay))
         jobs = [(rp["case"].get("flavour", "plain"), rp["case"]["argv"])]
@@ -102,6 +108,8 @@ def run(tier, args):
     asan_frames = 0
     vio_convs = {}
 
+    cc_tot = {}
+
     def add(dst, src):
         for k, v in src.items():
             dst[k] = dst.get(k, 0) + v
@@ -115,6 +123,13 @@ def run(tier, args):
             continue
         if res is None or "harness_error" in res:
             raise common.HarnessError("driver %s %s rc=%s: %s %s" % (fl, argv, rc, res, err[-400:]))
+        if fl == "cc":
+            for v in res["violations"]:
+                chk.violation(v["key"], "%s [%d programs]" % (v["what"], v["count"]), {"argv": v["spec"].split(), "flavour": "cc"})
+            for k in ("programs", "invokes", "finalize_errors", "with_locals", "big_before_small"):
+                cc_tot[k] = cc_tot.get(k, 0) + res[k]
+            cc_tot["max_arg_stack_" + res["arch"]] = max(cc_tot.get("max_arg_stack_" + res["arch"], 0), res["max_arg_stack"])
+            continue
         for v in res["violations"]:
             what = "%s [%d frames; conventions: %s]" % (v["what"], v["count"], ", ".join(v["convs"][:12]))
             chk.violation(v["key"], what, {"argv": ["--case", v["spec"]], "flavour": fl})
@@ -179,6 +194,7 @@ def run(tier, args):
         "caller_canary_bytes_compared": tot["caller_canary_bytes"],
         "asan_ubsan_nonexecuting_frames": asan_frames,
         "exhaustive": False,
+        "compiler_derived_frames": cc_tot,
         "jobs": len(jobs),
     })
     chk.assumptions += [
